@@ -657,6 +657,36 @@ fn op_array(req: &Value) -> Value {
         })),
     );
 
+    // iter_indices driven by mixed call histories: ["next"] / ["nth", k] / ["len"]; each step records (len before, result).
+    if let Some(histories) = req["index_histories"].as_array() {
+        let res: Vec<Value> = histories
+            .iter()
+            .map(|h| {
+                g(guarded(|| {
+                    let mut it = array.iter_indices();
+                    let mut trace = Vec::new();
+                    for step in h.as_array().expect("history") {
+                        let len = guarded(|| it.len());
+                        let item = match step[0].as_str().expect("op") {
+                            "nth" => {
+                                let k = step[1].as_u64().expect("k") as usize;
+                                guarded(|| json!(it.nth(k)))
+                            }
+                            _ => guarded(|| json!(it.next())),
+                        };
+                        let stop = item.is_err();
+                        trace.push(json!([g(len), g(item)]));
+                        if stop {
+                            break;
+                        }
+                    }
+                    Value::Array(trace)
+                }))
+            })
+            .collect();
+        out.insert("index_histories".into(), Value::Array(res));
+    }
+
     // get() with caller-supplied index queries.
     if let Some(queries) = req["get"].as_array() {
         let res: Vec<Value> = queries
